@@ -122,8 +122,12 @@ func init() {
 // entry points come first for each input so that stale position tables are
 // seen before a positioned call overwrites them.
 func ParBattery(p *parser.Parser, rot int) []Res {
-	out := make([]Res, 0, len(Inputs)*4)
+	out := make([]Res, 0, len(Inputs)*4+6)
 	first := (rot / len(Inputs)) % 3 // which position-less entry point goes first
+	noTokFirst := (rot/(len(Inputs)*3))%2 == 0
+	if noTokFirst {
+		out = noTokens(p, out)
+	}
 	for i := range Inputs {
 		j := (i + rot) % len(Inputs)
 		in, toks := Inputs[j], probeTokens[j]
@@ -146,6 +150,27 @@ func ParBattery(p *parser.Parser, rot int) []Res {
 		tree, err := p.ParseFromModelTokensWithPositions(toks)
 		out = append(out, Res{in.Name + "/ParseFromModelTokensWithPositions", "tree=" + canon.Of(tree) + " err=" + canon.Err(err)})
 	}
+	if !noTokFirst {
+		out = noTokens(p, out)
+	}
+	return out
+}
+
+// noTokens probes every entry point with a token list of length zero (not even
+// an end marker): nothing of an earlier call may show in the answer.
+func noTokens(p *parser.Parser, out []Res) []Res {
+	tree, err := p.Parse(nil)
+	out = append(out, Res{"no-tokens/Parse", "tree=" + canon.Of(tree) + " err=" + canon.Err(err)})
+	tree, err = p.ParseContext(simctx.Never(), nil)
+	out = append(out, Res{"no-tokens/ParseContext", "tree=" + canon.Of(tree) + " err=" + canon.Err(err)})
+	tree, err = p.ParseWithPositions(&parser.ConversionResult{})
+	out = append(out, Res{"no-tokens/ParseWithPositions", "tree=" + canon.Of(tree) + " err=" + canon.Err(err)})
+	tree, err = p.ParseFromModelTokens(nil)
+	out = append(out, Res{"no-tokens/ParseFromModelTokens", "tree=" + canon.Of(tree) + " err=" + canon.Err(err)})
+	tree, err = p.ParseContextFromModelTokens(simctx.Never(), []models.TokenWithSpan{})
+	out = append(out, Res{"no-tokens/ParseContextFromModelTokens", "tree=" + canon.Of(tree) + " err=" + canon.Err(err)})
+	stmts, errs := p.ParseWithRecovery(nil)
+	out = append(out, Res{"no-tokens/ParseWithRecovery", "stmts=" + canon.Of(stmts) + " errs=" + canon.Of(errs)})
 	return out
 }
 
